@@ -151,6 +151,90 @@ struct Out {
 // ------------------------------------------------------------------------------------------
 // problem data, selected through the repository's own selection table
 // ------------------------------------------------------------------------------------------
+// Argument monitors: every input function the library receives checks, on EVERY call, that its arguments are self-consistent -
+// sin_theta / cos_theta are the sine and cosine of theta, theta lies in [0, 2 pi], r lies in [0, Rmax].  The shipped classes use
+// either theta or the passed sine/cosine, so a call with the cached trigonometric values of another node is invisible with them.
+// A violated contract ends the probe (reported as a crash of that case with the message below).
+inline void inputContract(const char* fn, double r, double theta, double s, double c, double Rmax)
+{
+    const bool ok = std::fabs(s - std::sin(theta)) <= 1e-12 && std::fabs(c - std::cos(theta)) <= 1e-12 && theta >= -1e-12 &&
+                    theta <= 2 * M_PI + 1e-12 && r >= 0.0 && r <= Rmax * (1 + 1e-12);
+    if (!ok) {
+        fprintf(stderr, "harness: Assertion INPUT-CONTRACT failed: %s called with r=%.17g theta=%.17g sin_theta=%.17g cos_theta=%.17g (Rmax %.17g)\n",
+                fn, r, theta, s, c, Rmax);
+        fflush(stderr);
+        abort();
+    }
+}
+struct MonitoredGeometry : public DomainGeometry {
+    std::unique_ptr<const DomainGeometry> inner;
+    double Rmax;
+    MonitoredGeometry(std::unique_ptr<const DomainGeometry> g, double rmax)
+        : inner(std::move(g))
+        , Rmax(rmax)
+    {
+    }
+#define VH_FWD(NAME)                                                                                                               \
+    double NAME(const double& r, const double& theta, const double& sin_theta, const double& cos_theta) const override            \
+    {                                                                                                                              \
+        inputContract("DomainGeometry::" #NAME, r, theta, sin_theta, cos_theta, Rmax);                                           \
+        return inner->NAME(r, theta, sin_theta, cos_theta);                                                                        \
+    }
+    VH_FWD(Fx) VH_FWD(Fy) VH_FWD(dFx_dr) VH_FWD(dFy_dr) VH_FWD(dFx_dt) VH_FWD(dFy_dt)
+#undef VH_FWD
+};
+struct MonitoredCoefficients : public DensityProfileCoefficients {
+    std::unique_ptr<const DensityProfileCoefficients> inner;
+    double Rmax;
+    MonitoredCoefficients(std::unique_ptr<const DensityProfileCoefficients> g, double rmax)
+        : inner(std::move(g))
+        , Rmax(rmax)
+    {
+    }
+    double alpha(const double& r) const override
+    {
+        inputContract("DensityProfileCoefficients::alpha", r, 0.0, 0.0, 1.0, Rmax);
+        return inner->alpha(r);
+    }
+    double beta(const double& r) const override
+    {
+        inputContract("DensityProfileCoefficients::beta", r, 0.0, 0.0, 1.0, Rmax);
+        return inner->beta(r);
+    }
+    double getAlphaJump() const override
+    {
+        return inner->getAlphaJump();
+    }
+};
+struct MonitoredSource : public SourceTerm {
+    std::unique_ptr<const SourceTerm> inner;
+    double Rmax;
+    MonitoredSource(std::unique_ptr<const SourceTerm> g, double rmax)
+        : inner(std::move(g))
+        , Rmax(rmax)
+    {
+    }
+    double rhs_f(const double& r, const double& theta, const double& sin_theta, const double& cos_theta) const override
+    {
+        inputContract("SourceTerm::rhs_f", r, theta, sin_theta, cos_theta, Rmax);
+        return inner->rhs_f(r, theta, sin_theta, cos_theta);
+    }
+};
+struct MonitoredExact : public ExactSolution {
+    std::unique_ptr<const ExactSolution> inner;
+    double Rmax;
+    MonitoredExact(std::unique_ptr<const ExactSolution> g, double rmax)
+        : inner(std::move(g))
+        , Rmax(rmax)
+    {
+    }
+    double exact_solution(const double& r, const double& theta, const double& sin_theta, const double& cos_theta) const override
+    {
+        inputContract("ExactSolution::exact_solution", r, theta, sin_theta, cos_theta, Rmax);
+        return inner->exact_solution(r, theta, sin_theta, cos_theta);
+    }
+};
+
 // Boundary data handed to the library are POISONED outside the place each function is specified for: u_D is the datum on the
 // outer boundary (valid for r > 0.75 Rmax here), u_D_Interior the datum on the inner boundary (valid for r < 0.5 Rmax; every inner
 // radius used by the checks is <= 0.1).  All shipped boundary classes implement both functions with the same body, so a call of
@@ -158,17 +242,23 @@ struct Out {
 struct PoisonedBoundaryConditions : public BoundaryConditions {
     std::unique_ptr<const BoundaryConditions> inner;
     double Rmax;
-    PoisonedBoundaryConditions(std::unique_ptr<const BoundaryConditions> b, double rmax)
+    bool monitored;
+    PoisonedBoundaryConditions(std::unique_ptr<const BoundaryConditions> b, double rmax, bool mon)
         : inner(std::move(b))
         , Rmax(rmax)
+        , monitored(mon)
     {
     }
     double u_D(const double& r, const double& theta, const double& sin_theta, const double& cos_theta) const override
     {
+        if (monitored)
+            inputContract("BoundaryConditions::u_D", r, theta, sin_theta, cos_theta, Rmax);
         return r > 0.75 * Rmax ? inner->u_D(r, theta, sin_theta, cos_theta) : 1e6;
     }
     double u_D_Interior(const double& r, const double& theta, const double& sin_theta, const double& cos_theta) const override
     {
+        if (monitored)
+            inputContract("BoundaryConditions::u_D_Interior", r, theta, sin_theta, cos_theta, Rmax);
         return r < 0.5 * Rmax ? inner->u_D_Interior(r, theta, sin_theta, cos_theta) : -1e6;
     }
 };
@@ -183,7 +273,7 @@ struct Problem {
     // geometry: 0 circ 1 shafranov 2 czarny 3 culham ; problem 0 cartR2 1 cartR6 2 polarR6 3 refined ;
     // alpha 0 poisson 1 sonnendrucker 2 zoni 3 zoni-shifted ; beta 0 zero 1 1/alpha
     static Problem select(int geometry, int problem, int alpha, int beta, double Rmax, double kappa_eps,
-                          double delta_e, double alpha_jump)
+                          double delta_e, double alpha_jump, bool monitored = true)
     {
         GMGPolar g; // default-constructs with the documented defaults and runs selectTestCase() once
         g.geometry_   = static_cast<GeometryType>(geometry);
@@ -198,9 +288,16 @@ struct Problem {
         Problem p;
         p.geo   = std::move(g.domain_geometry_);
         p.coef  = std::move(g.density_profile_coefficients_);
-        p.bc    = std::make_unique<PoisonedBoundaryConditions>(std::move(g.boundary_conditions_), Rmax);
+        p.bc    = std::make_unique<PoisonedBoundaryConditions>(std::move(g.boundary_conditions_), Rmax, monitored);
         p.src   = std::move(g.source_term_);
         p.exact = std::move(g.exact_solution_);
+        if (monitored) {
+            p.geo  = std::make_unique<MonitoredGeometry>(std::move(p.geo), Rmax);
+            p.coef = std::make_unique<MonitoredCoefficients>(std::move(p.coef), Rmax);
+            p.src  = std::make_unique<MonitoredSource>(std::move(p.src), Rmax);
+            if (p.exact)
+                p.exact = std::make_unique<MonitoredExact>(std::move(p.exact), Rmax);
+        }
         return p;
     }
     static Problem fromCase(const Case& c)
